@@ -308,14 +308,39 @@ Vacuum(lexLen, lexLen2, pe) ==
                ELSE [w1 EXCEPT !.pb = IF committed THEN 0 ELSE w1.pb, !.apc = IF committed THEN 0 ELSE w1.apc] IN
      /\ frames' = [i \in 1..Len(Apply(frames, pend)) |->
                     LET f == Apply(frames, pend)[i] IN IF f.st # "active" THEN [f EXCEPT !.gone = TRUE] ELSE f]
-     /\ pend' = (IF lexLen2 > 0 THEN <<Lex(w2.seq)>> ELSE <<>>)
-     /\ wR' = w2.r /\ wh' = w2.h /\ wpb' = w2.pb /\ wapc' = w2.apc /\ wseq' = w2.seq
-     /\ wcseq' = (IF committed THEN w1.seq ELSE wcseq)
+     \* the record appended by the index rebuild is checkpointed before vacuum returns
+     /\ pend' = <<>>
+     /\ wR' = w2.r /\ wh' = w2.h /\ wpb' = 0 /\ wapc' = 0 /\ wseq' = w2.seq
+     /\ wcseq' = w2.seq
      /\ dirty' = (IF committed THEN FALSE ELSE dirty) /\ pins' = 0 /\ acked' = <<>>
   /\ cpe' = Max(cpe, pe)
   /\ exists' = (IF Damage(W, lexLen) = "broken" THEN "broken" ELSE exists)
   /\ UNCHANGED <<hdl, snap, noAuto, ticket>>
   /\ last' = Obs("vacuum", "ok", 0)
+
+\* Memvid::doctor(path, opts) on a closed file: replays the pending window, optionally vacuums, rebuilds what the
+\* options ask for, recomputes the TOC and resets the log (sequence numbers restart from 0); a run that finds
+\* nothing to do reports Clean and changes nothing; dry_run only plans
+Doctor(vac, rebuild, dry, st) ==
+  /\ hdl = "none" /\ exists = "ok"
+  /\ LET todo == pend # <<>> \/ vac \/ rebuild
+         \* C21: a run right after a completed run finds nothing to do.  Otherwise a run without pending records
+         \* or options may still report Healed: the health of the index segments is not part of this model.
+         immediate == last.op = "doctor" /\ last.val \in {"Healed", "Clean"} IN
+     /\ st \in {"Clean", "Healed", "PlanOnly"}
+     /\ (dry => st = (IF todo THEN "PlanOnly" ELSE st) /\ st \in {"PlanOnly", "Clean"})
+     /\ (~dry => st \in {"Clean", "Healed"} /\ (todo => st = "Healed") /\ (~todo /\ immediate => st = "Clean"))
+     /\ IF dry
+       THEN /\ last' = Obs("doctor", "ok", st)
+            /\ UNCHANGED <<exists, frames, pend, wal, hdl, snap, dirty, pins, noAuto, ticket, cpe, acked>>
+       ELSE \* as built, also a run that reports Clean rewrites the header and zeroes the (checkpointed) log
+            /\ frames' = (LET fs == Apply(frames, pend) IN
+                           IF vac THEN [i \in 1..Len(fs) |-> IF fs[i].st # "active" THEN [fs[i] EXCEPT !.gone = TRUE] ELSE fs[i]]
+                           ELSE fs)
+            /\ pend' = <<>> /\ acked' = <<>>
+            /\ wR' = wR /\ wh' = 0 /\ wpb' = 0 /\ wapc' = 0 /\ wseq' = 0 /\ wcseq' = 0
+            /\ last' = Obs("doctor", "ok", st)
+            /\ UNCHANGED <<exists, hdl, snap, dirty, pins, noAuto, ticket, cpe>>
 
 ApplyTicket(s, c) ==
   /\ hdl = "rw"
